@@ -92,6 +92,12 @@ def answer (l : String) : String :=
     | some s => match RhcTag.parse s with
       | none => "err"
       | some t => s!"ok {t.major} {t.minor} | {showInts (RhcTag.project t true).v} | {showInts (RhcTag.project t false).v}"
+  | ["rhcplain", s] =>
+    match str s with
+    | none => "bad-op"
+    | some s => match RhcTag.parse s with
+      | none => "err"
+      | some t => if RhcTag.plain true t then "v" else if RhcTag.plain false t then "plain" else "no"
   | ["rhccmp", s, t] =>
     match str s, str t with
     | some s, some t => match RhcTag.parse s, RhcTag.parse t with
